@@ -318,10 +318,16 @@ class RDFWriter(object):
 
             # Ignore "id" and empty values, but make sure the content of "value"
             # is only accessed via its non deprecated property "values".
-            if k == "id" or not curr_val:
+            # An uncertainty of 0 is a set attribute and must not be dropped.
+            if k == "id" or curr_val is None or curr_val == "" or curr_val == []:
                 continue
 
             if k == "value":
+                # odML tuples are lists of strings; export them in their odML
+                # string representation "(a;b)" so they can be imported again.
+                if prop.dtype and prop.dtype.endswith("-tuple"):
+                    curr_val = ["(%s)" % ";".join(val) for val in curr_val]
+
                 # generating nodes for Property values
                 self.save_odml_values(curr_node, curr_pred, curr_val)
             else:
